@@ -851,8 +851,12 @@ class Tr(BTr):
             else:
                 x = self.coerce(self.expr(a), pt, f'argument {pn} of {key[1]}')
             actual.append(par(x))
-            if (pstart + i) in th and byname is not None and not (byname in self.fresh_objs and False):
-                rebind.append((th.index(pstart + i), byname))
+            if (pstart + i) in th and byname is not None:
+                rebind.append((th.index(pstart + i), byname, None))
+            elif (pstart + i) in th:
+                el = self.element_of(a)
+                if el is not None:
+                    rebind.append((th.index(pstart + i), el[0], el[1]))
         ctx = ' '.join(n for n, _ in cfg.ctx[sig['mode']])
         fuel = ''
         if self.prog.needs_fuel_arg(key):
@@ -871,9 +875,11 @@ class Tr(BTr):
             raise Untranslatable('a deserialiser is called from a serialiser')
         r = self.bind(term, 'r')
         if sig['mode'] == 'opt' and th:
-            for k, name in rebind:
+            for k, name, how in rebind:
                 tgt = name
-                if name in self.narrow and len(self.narrow[name]['order']) == 1:
+                if how is not None:          # the argument was the element xs[-1] / xs[0] of a list with a post-state: write it back
+                    self.emit(f'let {lname(tgt)} := Py.RL.{how} {lname(tgt)} {proj(r, k + 1, len(th) + 1)}')
+                elif name in self.narrow and len(self.narrow[name]['order']) == 1:
                     fld = self.narrow[name]['order'][0]
                     nv = self.tmp(name)
                     self.emit(f'let {nv} := {proj(r, k + 1, len(th) + 1)}')
@@ -882,6 +888,22 @@ class Tr(BTr):
                     self.emit(f'let {lname(tgt)} := {proj(r, k + 1, len(th) + 1)}')
             return proj(r, 0, len(th) + 1), sig['ret']
         return r, sig['ret']
+
+    def element_of(self, a):
+        """`xs[-1]` / `xs[0]` (also through the wrapper's list attribute) of a named list with a post-state -> (name, RL setter)"""
+        if not isinstance(a, ast.Subscript):
+            return None
+        b = a.value
+        if isinstance(b, ast.Attribute) and b.attr == self.cfg.list_attr:
+            b = b.value
+        if not (isinstance(b, ast.Name) and b.id in self.threaded and is_list(self.env.get(b.id, ''))):
+            return None
+        s = a.slice
+        if isinstance(s, ast.UnaryOp) and isinstance(s.op, ast.USub) and isinstance(s.operand, ast.Constant) and s.operand.value == 1:
+            return b.id, 'setLast'
+        if isinstance(s, ast.Constant) and s.value == 0:
+            return b.id, 'setFirst'
+        return None
 
     def inline(self, key, actual):
         """the body of a pass-through method as a term, with its parameters bound to the (already evaluated) arguments"""
